@@ -14,6 +14,9 @@ pub struct C08;
 pub struct Case08 {
     pub ast: AstCase,
     pub rep: String,
+    /// a case given as text (what the libFuzzer target finds); `ast` is then unused
+    #[serde(default)]
+    pub text: Option<StrCase>,
 }
 
 fn cmp_iter<T: PartialEq + std::fmt::Debug>(a: &Option<Res<IterOut<T>>>, b: &Option<Res<IterOut<T>>>) -> bool {
@@ -57,6 +60,9 @@ fn any_bad(o: &Outcome) -> bool {
 }
 
 pub fn check_opt(case: &Case08, ctx: &mut Ctx) -> Verdict {
+    if let Some(t) = &case.text {
+        return check_opt_str(t, ctx);
+    }
     let m = case.ast.materialize(Dialect::XPath, &[]);
     let mut job = Job::new(Dialect::XPath, &m.pattern, &case.ast.flags);
     job.inputs = m.inputs.clone();
@@ -115,6 +121,34 @@ pub fn check_opt(case: &Case08, ctx: &mut Ctx) -> Verdict {
     Verdict::Pass
 }
 
+/// the same comparison on a pattern given as text (re-judges what the libFuzzer target `diff` finds)
+pub fn check_opt_str(case: &StrCase, ctx: &mut Ctx) -> Verdict {
+    let mut job = case.job();
+    let ra = ctx.w.run(&job);
+    job.no_opt = true;
+    let rb = ctx.w.run(&job);
+    let (a, b) = match (&ra, &rb) {
+        (JobResult::Done(a), JobResult::Done(b)) => (a, b),
+        (JobResult::Hang, _) | (_, JobResult::Hang) => return Verdict::Skip("hang"),
+        _ => return Verdict::Skip("died"),
+    };
+    if any_bad(a) || any_bad(b) {
+        return Verdict::Skip("panic");
+    }
+    if let Some(d) = diff_outcomes(a, b, &case.inputs) {
+        let cut = a.compile_cutoffs > 0 || b.compile_cutoffs > 0 || a.per_input.iter().any(|x| x.any_cutoff()) || b.per_input.iter().any(|x| x.any_cutoff());
+        let mut regions = vec![];
+        if cut {
+            regions.push("force_progress_cutoff");
+        }
+        if let Some(id) = ctx.known.attribute("C08", &regions, "results-differ") {
+            return Verdict::Known(id);
+        }
+        return Verdict::Fail(Failure { sub: "optimised-vs-unoptimised".into(), expected: "identical results from both compilations".into(), actual: d, detail: format!("{}", case.describe()) });
+    }
+    Verdict::Pass
+}
+
 /// shapes that trigger each shortcut: leading literal / class / ^, X*Y with related or unrelated first sets, counted repeats
 pub fn trigger_strategy() -> BoxedStrategy<Node> {
     // letters from different regions of the code space: the first-set comparison gives up after 100 characters, so
@@ -170,11 +204,11 @@ impl Prop for C08 {
     fn parts(&self, tier: Tier) -> Vec<Part<Case08>> {
         let rep = prop::sample::select(vec!["[$0]", "$1", "x", "", "\\$"]).prop_map(|s| s.to_string());
         let s1 = (trigger_strategy(), gen::flags_strategy("ims"), gen::raw_inputs(8, 8), rep.clone())
-            .prop_map(|(node, flags, inputs, rep)| Case08 { ast: AstCase { node, flags, inputs: Inputs::Raw(inputs) }, rep })
+            .prop_map(|(node, flags, inputs, rep)| Case08 { ast: AstCase { node, flags, inputs: Inputs::Raw(inputs) }, rep, text: None })
             .boxed();
         let cfg = GenCfg::basic(&['a', 'b', 'A', '1', '\n', 'x', 'é']);
         let s2 = (gen::node_strategy(&cfg), gen::flags_strategy("ims"), gen::raw_inputs(8, 8), rep)
-            .prop_map(|(node, flags, inputs, rep)| Case08 { ast: AstCase { node, flags, inputs: Inputs::Raw(inputs) }, rep })
+            .prop_map(|(node, flags, inputs, rep)| Case08 { ast: AstCase { node, flags, inputs: Inputs::Raw(inputs) }, rep, text: None })
             .boxed();
         vec![
             Part { name: "shortcut-triggers".into(), strategy: s1, cases: tier.pick(150_000, 3_000_000) },
@@ -188,7 +222,7 @@ impl Prop for C08 {
             if let Inputs::Lit(v) = &mut ast.inputs {
                 v.retain(|s| s.chars().count() <= 4);
             }
-            Case08 { ast, rep: "[$0]".into() }
+            Case08 { ast, rep: "[$0]".into(), text: None }
         });
         let size = tier.pick(3, 4);
         let nodes = crate::enumerate::up_to(&super::c01::enum_cfg(), size);
@@ -196,14 +230,51 @@ impl Prop for C08 {
         let scope2 = format!("all {} ASTs of size <= {} over the atoms and quantifiers of C01's first scope x {} inputs over {{a,b,LF}} of length <= 3 x flags {{'', i, m, ms}}", nodes.len(), size, inputs.len());
         let it2 = nodes.into_iter().flat_map(move |node| {
             let inputs = inputs.clone();
-            ["", "i", "m", "ms"].into_iter().map(move |f| Case08 { ast: AstCase { node: node.clone(), flags: f.to_string(), inputs: Inputs::Lit(inputs.clone()) }, rep: "[$0]".into() })
+            ["", "i", "m", "ms"].into_iter().map(move |f| Case08 { ast: AstCase { node: node.clone(), flags: f.to_string(), inputs: Inputs::Lit(inputs.clone()) }, rep: "[$0]".into(), text: None })
         });
         vec![(name, format!("{scope} (inputs of length <= 4 only)"), Box::new(it)), ("exhaustive-small".into(), scope2, Box::new(it2))]
+    }
+    fn extra(&self, ctx: &mut Ctx) -> Vec<(String, Verdict, Option<Case08>)> {
+        // thorough tier: coverage-guided search with the differential oracle inside the libFuzzer target `diff`
+        if ctx.tier != Tier::Thorough {
+            return vec![];
+        }
+        let seed = std::env::var("VERIF_SEED").ok().and_then(|s| s.parse().ok()).unwrap_or(0u64);
+        let c = crate::fuzzrun::Campaign { name: "C08", target: "diff", hooks: true, runs_per_job: 400_000, jobs: 12, timeout_s: 25, seed: seed + 808 };
+        match crate::fuzzrun::run(&c, &[]) {
+            Err(e) => {
+                eprintln!("harness error: fuzz campaign: {e}");
+                std::process::exit(2)
+            }
+            Ok((found, execs)) => {
+                ctx.obs.label(&format!("libfuzzer:executions={execs}"));
+                ctx.obs.label(&format!("libfuzzer:artifacts={}", found.len()));
+                ctx.obs.eval(execs);
+                for f in found {
+                    let v = check_opt_str(&f.case, ctx);
+                    match v {
+                        Verdict::Fail(fl) => {
+                            let case = Case08 { ast: AstCase { node: Node::Empty, flags: String::new(), inputs: Inputs::Lit(vec![]) }, rep: String::new(), text: Some(f.case.clone()) };
+                            return vec![(format!("libfuzzer-{}", f.kind), Verdict::Fail(Failure { detail: format!("{} (candidate found by libFuzzer, re-judged through the worker)", fl.detail), ..fl }), Some(case))];
+                        }
+                        Verdict::Known(_) => ctx.obs.label("libfuzzer:artifact-is-known-finding"),
+                        _ => {
+                            println!("note: libFuzzer artifact ({}) did not fail when re-judged through the worker: {}", f.kind, f.case.describe());
+                            ctx.obs.label(&format!("libfuzzer:artifact-not-confirmed:{}", f.kind));
+                        }
+                    }
+                }
+                vec![]
+            }
+        }
     }
     fn check(&self, case: &Case08, ctx: &mut Ctx) -> Verdict {
         check_opt(case, ctx)
     }
     fn describe(&self, case: &Case08) -> Value {
+        if let Some(t) = &case.text {
+            return t.describe();
+        }
         let m = case.ast.materialize(Dialect::XPath, &[]);
         json!({"pattern": m.pattern, "flags": case.ast.flags, "inputs": m.inputs, "rep": case.rep})
     }
